@@ -627,8 +627,9 @@ class Program:
         bb = "bb0"
         while True:
             blk = f.blocks[bb]
-            for st in blk.stmts:
+            for sti, st in enumerate(blk.stmts):
                 ctx.steps += 1
+                ctx.cur_stmt = (blk, sti)
                 ctx.dest_ty = f.local_tys.get(st.place.local) if not st.place.proj else None
                 try:
                     val = self.rvalue(ctx, f, st.rv, operand, place_ref)
@@ -914,6 +915,20 @@ class Program:
             return caps
         byidx = dict(ups)
         out = [None] * n
+        if all(op.place is not None and not op.place.proj for _, op in rv[2]):
+            # every printed capture is a plain temporary: MIR building evaluates the capture operands, in capture order,
+            # by the statements immediately before the closure aggregate (`_7 = &(*_1).0; _8 = &(*_1).2; _6 = {closure} {..}`)
+            blk, sti = getattr(ctx, "cur_stmt", (None, 0))
+            prev = blk.stmts[max(0, sti - n):sti] if blk is not None else []
+            if len(prev) == n and all(not s_.place.proj for s_ in prev):
+                locs_ = [s_.place.local for s_ in prev]
+                ok = True
+                for (fname, op) in rv[2]:
+                    slots = [i for i, nm in ups if nm.split("__")[0] == fname]
+                    ok = ok and bool(slots) and locs_[slots[0]] == op.place.local
+                if ok:
+                    from .parse import Place as _Place
+                    return [place_ref(_Place(l, [])).get() for l in locs_]
         # printed captures appear in capture order of their variables; map each to the first capture slot of its variable
         printed = {}
         for (fname, op), val in zip(rv[2], caps):
